@@ -174,11 +174,18 @@ func (s *SBI) validateSetDefaults() error {
 
 func (s *Sync) validateSetDefaults() error {
 	// no sync
-	if s == nil || len(s.Config) == 0 {
+	if s == nil {
 		return nil
 	}
+	// the buffer is the size of a channel, whether or not a sync is configured
 	if s.Buffer <= 0 {
 		s.Buffer = defaultBufferSize
+	}
+	if s.Buffer > maxBufferSize {
+		return fmt.Errorf("sync buffer %d exceeds the maximum of %d", s.Buffer, maxBufferSize)
+	}
+	if len(s.Config) == 0 {
+		return nil
 	}
 	if s.WriteWorkers <= 0 {
 		s.WriteWorkers = defaultWriteWorkers
